@@ -98,12 +98,12 @@ func runReplayBinary(bin, jobPath, dir string) (string, error) {
 }
 
 type replayVerdict struct {
-	Failed    bool // assertion failed or panic or timeout
-	Label     string
-	Done      bool
-	Rejected  bool
-	Obs       []uint64
-	Raw       string
+	Failed   bool // assertion failed or panic or timeout
+	Label    string
+	Done     bool
+	Rejected bool
+	Obs      []uint64
+	Raw      string
 }
 
 func parseReplay(out string) replayVerdict {
